@@ -61,6 +61,8 @@ Definition convert_if_branch (c r e : expr) : expr :=
     first (the code reverses the iterator before folding), then the leading [if] *)
 Definition rw_if_expression (e : expr) : expr :=
   match e with
+  | EIf [] els => EParen els    (* no such tree in darklua (an if-expression has its first branch);
+                                   [EIf [] els] evaluates [els] truncated to one value, as [(els)] does *)
   | EIf bs els => fold_right (fun b acc => match b with EBranch c r => convert_if_branch c r acc end) els bs
   | _ => e
   end.
@@ -148,14 +150,11 @@ Definition rw_compound_assign_k (k : nat) (s : stmt) : stmt * nat :=
                    (EIndex (EIdent pv) (EIdent iv)) value, S (S k))
       end
     | EField p f =>
-      match p with
-      | EIdent _ => (plain_assign op var value, k)
-      | _ =>
-        if prefix_needs_temp p then
-          let pv := temp_name k in
-          (do_assign op (local_temps [pv] [remove_parens p]) (EField (EIdent pv) f) value, S k)
-        else (plain_assign op (EField (simplify_prefix p) f) value, k)
-      end
+      (* an identifier prefix keeps the variable as it is: [simplify_prefix (EIdent x) = EIdent x] *)
+      if prefix_needs_temp p then
+        let pv := temp_name k in
+        (do_assign op (local_temps [pv] [remove_parens p]) (EField (EIdent pv) f) value, S k)
+      else (plain_assign op (EField (simplify_prefix p) f) value, k)
     | _ => (plain_assign op var value, k)
     end
   | _ => (s, k)
